@@ -21,7 +21,7 @@ RECEIVE, SEND, SENDEOF, CLOSE, RESUME, CANCEL, DATA, EOF, LOST, PAUSEW, RESUMEW 
 OPN = {0: "Receive", 1: "Send", 2: "SendEof", 3: "Close", 4: "Resume", 5: "Cancel", 6: "DataReceived",
        7: "EofReceived", 8: "ConnectionLost", 9: "PauseWriting", 10: "ResumeWriting"}
 LOST_EXC = [ConnectionResetError, BrokenPipeError]
-NOBS = 14  # length of the state part of an observation
+NOBS = 15  # length of the state part of an observation
 
 
 def flat_ops(ops) -> list[int]:
@@ -49,6 +49,7 @@ class FakeTransport:
         self.writes: list[bytes] = []
         self.limits: list = []
         self.pause_next = False
+        self.pending = 0
         self.calls: list[str] = []
 
     def set_write_buffer_limits(self, high=None, low=None):
@@ -68,6 +69,12 @@ class FakeTransport:
     def write(self, data):
         if self.eof:
             raise RuntimeError("Cannot call write() after write_eof()")
+        # items whose drain has not been signalled: a write with the gate open leaves 1 (if the transport pauses) or 0,
+        # a write with the gate closed piles one more on top (codec field g_pending)
+        if self.proto.write_event.is_set():
+            self.pending = 1 if self.pause_next else 0
+        else:
+            self.pending += 1
         self.writes.append(bytes(data))
         if self.pause_next:
             self.pause_next = False
@@ -119,7 +126,7 @@ class SockRun:
         self.h_gate = True             # write gate as seen from the callbacks
         self.in_recv: dict[int, dict] = {}
         self.in_send: dict[int, dict] = {}
-        self.in_close: set[int] = set()
+        self.in_close: dict[int, dict] = {}
 
     def __enter__(self):
         self._sess = self.world.session()
@@ -139,6 +146,8 @@ class SockRun:
     def __exit__(self, *a):
         self.world.close()
         self._sess.__exit__(*a)
+        # everything the check needs later (ops, outs/final, mon, flags) is plain data: drop the loop, tasks and streams now
+        self.world = self.proto = self.tr = self.stream = self._sess = None
 
     def fresh_bytes(self, n: int) -> list[int]:
         out = [(self.nbyte + i) % 251 for i in range(n)]
@@ -154,7 +163,7 @@ class SockRun:
         return [len(p.read_queue), sum(len(c) for c in p.read_queue), int(p.read_event.is_set()),
                 int(p.write_event.is_set()), int(p.is_at_eof), exc, int(s._closed), int(tr.closing),
                 int(tr.reading), int(tr.eof), int(tr.aborted), int(s._receive_guard._guarded),
-                int(s._send_guard._guarded), sum(len(w) for w in tr.writes)]
+                int(s._send_guard._guarded), sum(len(w) for w in tr.writes), tr.pending]
 
     def final_dump(self) -> list[int]:
         out = [-1]
@@ -227,6 +236,7 @@ class SockRun:
                 return await stream.send_eof()
             out = w.act(a, cmd)
         elif c == CLOSE:
+            self._was_closing = self.tr.closing
             async def cmd(p):
                 return await stream.aclose()
             out = w.act(a, cmd)
@@ -244,10 +254,12 @@ class SockRun:
             proto.eof_received()
         elif c == LOST:
             self.tr.closing = True
+            self.tr.pending = 0
             proto.connection_lost(None if b == 0 else LOST_EXC[b - 1]("injected"))
         elif c == PAUSEW:
             proto.pause_writing()
         elif c == RESUMEW:
+            self.tr.pending = 0
             proto.resume_writing()
         r = self.res_obs(out)
         self.ops.append((c, a, b, tuple(pl)))
@@ -274,7 +286,7 @@ class SockRun:
             for d in self.in_send.values():
                 d["opened"] = True
         elif c == CANCEL:
-            for d in (self.in_recv.get(a), self.in_send.get(a)):
+            for d in (self.in_recv.get(a), self.in_send.get(a), self.in_close.get(a)):
                 if d is not None:
                     d["cancel"] = True
                     self.flags.add("cancel_in_call")
@@ -284,7 +296,7 @@ class SockRun:
         elif c == CLOSE:
             self.h_closed = True
             if k == 1:
-                self.in_close.add(a)
+                self.in_close[a] = {"was_closing": self._was_closing, "cancel": False}
             elif k != 0:
                 m(f"aclose raised (code {k})")
         elif c == RECEIVE:
@@ -396,6 +408,8 @@ class SockRun:
                     if d["gate_after_write"]:
                         m("send() blocked although the write gate is open")
                     self.flags.add("send_blocked")
+                    if not d["wrote"]:
+                        self.flags.add("send_waits_before_write")      # data of an earlier (cancelled) send() must drain first
                 elif k == 5:
                     self.flags.add("send_closed_error")
                     if d["wrote"]:
@@ -413,9 +427,23 @@ class SockRun:
                 if k in (0, 1) and d["after_close"]:
                     m(f"send() on a locally closed stream did not raise ClosedResourceError (code {k})")
             elif a in self.in_close:
+                d = self.in_close[a]
                 if k != 1:
-                    self.in_close.discard(a)
+                    del self.in_close[a]
+                    if k == 2:
+                        self.flags.add("close_cancelled")
+                        if not d["cancel"]:
+                            m("aclose() raised CancelledError without a cancel request")
+                    if k in (0, 2) and not d["was_closing"] and not self.tr.aborted:
+                        parked = sorted(list(self.in_recv) + list(self.in_send))
+                        m("aclose() ended" + (" (cancelled in its checkpoint)" if k == 2 else "") + " without aborting the transport: "
+                          "with a non-empty write buffer the transport never reports connection_lost, so parked calls are not woken by "
+                          f"the close (tasks inside receive()/send(): {parked})")
         # global facts after every step
+        if self.tr.pending > 1 and not any("more than one send" in x for x in self.mon):
+            m(f"the transport's write buffer holds data of more than one send(): {self.tr.pending} items were handed to "
+              "transport.write() since the transport paused writing and none of them has drained (no back-pressure: every "
+              "send() after a cancelled one piles its item on top)")
         if bytes(b"".join(self.tr.writes)) != bytes(self.h_items):
             m("bytes handed to transport.write() differ from the items of the sends that reached it")
         st = self.state_obs()
@@ -1199,6 +1227,7 @@ class UnixCloseRun:
     def __exit__(self, *a):
         self.world.close()
         self._sess.__exit__(*a)
+        self.world = self.stream = self.sock = self._sess = None
 
     # -- implementation-side state --
     def cb_handle(self, d):
@@ -1398,6 +1427,26 @@ def close_exhaustive(depth: int, defer: bool):
 # Part (b): end-to-end on real sockets (subprocesses running c18_sock_e2e.py) and the check itself
 # ------------------------------------------------------------------------------------------------------------
 
+def load_known_findings() -> dict:
+    """predicate -> (id, what) for the entries of known_findings.json (read only; VERIF_KNOWN_FINDINGS overrides the path) with
+    status == "known" and property == "C18".  A predicate that is not listed there is NOT a known finding: its hits are
+    ordinary violations."""
+    import os
+    from pathlib import Path
+    path = Path(os.environ.get("VERIF_KNOWN_FINDINGS") or (core.VERIF / "known_findings.json"))
+    try:
+        data = json.loads(path.read_text())
+    except Exception:  # noqa: BLE001
+        return {}
+    out = {}
+    for f in data.get("findings", []):
+        if f.get("status") == "known" and f.get("property") == "C18":
+            pred = (f.get("match") or {}).get("predicate")
+            if pred:
+                out[pred] = (f.get("id", "?"), f.get("what", ""))
+    return out
+
+
 E2E_CONFIGS = [("tcp", "asyncio"), ("tcp", "uvloop"), ("unix", "asyncio"), ("unix", "uvloop"),
                ("wrap", "asyncio"), ("wrap", "uvloop")]
 
@@ -1422,6 +1471,12 @@ NOT_EXHIBITED = [
     "empirical margins over the kernel defaults of this machine, not theorems",
     "closing a raw UNIX socket with unread input makes the KERNEL reset the connection (peer sees BrokenResourceError): "
     "the close scenario reads its input first; observed, not modelled",
+    "closing a TCP stream with unread inbound data makes the kernel reset the connection and discard the stream's own send queue "
+    "(known finding F48, predicate close_with_unread_inbound_resets): kernel behaviour outside SockProto, exercised by the directed "
+    "real-socket scenario close_unread_inbound (with a control run without unread data, which must lose nothing)",
+    "g_pending (SockProto) counts send() items whose drain the transport has not signalled; it equals 'number of send() calls with "
+    "data in the transport's user-space buffer' only under the transport contract (pause_writing inside write() when the kernel did "
+    "not take everything, resume_writing when the buffer is empty); the end-to-end scenario send_timeouts checks the real buffer",
 ]
 
 
@@ -1520,7 +1575,7 @@ def check(tier: str) -> int:
         elif c.get("kind") == "e2e":
             corpus_e2e.append(c)
     n_corpus = len(sruns) + len(uruns_corpus) + len(corpus_e2e) + len(cruns)
-    n_random = 1500 if tier == "quick" else 40000
+    n_random = 1500 if tier == "quick" else 30000
     for _ in range(n_random):
         sruns.append(sock_random_case(rng, rng.choice([6, 10, 16, 24, 40, 60])))
     t0 = time.time()
@@ -1544,7 +1599,7 @@ def check(tier: str) -> int:
 
     # ---------------- (a2) UnixLoop ----------------
     ucands = uruns_corpus + [unix_random_case(rng) for _ in range(1800 if tier == "quick" else 25000)]
-    ucands += unix_exhaustive(3 if tier == "quick" else 5)
+    ucands += unix_exhaustive(3 if tier == "quick" else 4)
     n_ex_u = len(ucands) - len(uruns_corpus) - (1800 if tier == "quick" else 25000)
     ucases = [r.case() for r in ucands]
     umodel = core.run_driver(exe_u, ucases)
@@ -1603,6 +1658,20 @@ def check(tier: str) -> int:
         af = d.get("anyio_file", "")
         if af and not af.startswith(str(core.REPO)):
             e2e_viol.append((d, {"scenario": "run", "what": f"end-to-end run imported anyio from {af}", "params": {}}))
+    known = load_known_findings()
+    known_hits: dict[str, list] = {}
+    for d in e2e:
+        for k in d.get("known", []):
+            pred = k["predicate"]
+            if pred in known:
+                known_hits.setdefault(pred, []).append({"config": d["config"], "detail": k["detail"]})
+            else:
+                # the predicate is not (or no longer) recorded as a known finding: an ordinary violation
+                e2e_viol.append((d, {"scenario": k["scenario"], "what": k["detail"] + f" [predicate {pred}, not a recorded known finding]",
+                                     "params": k.get("params", {})}))
+    for pred, hits in known_hits.items():
+        fid, what = known[pred]
+        rep.known_finding(f"{what} ({fid}, predicate {pred})")
     planned = {(s[0], tuple(s[1])) for d in e2e for s in d.get("facts", {}).get("scenario_s", [])}
     for c in corpus_e2e:
         args = tuple(c["args"]) if "args" in c else (c["direction"], c["mode"])
@@ -1709,6 +1778,9 @@ def check(tier: str) -> int:
             "send_eof_by_second_task_during_parked_send": f.get("eof_during_send"),
             "aclose_with_receive_and_send_parked": f.get("close_both_parked"),
             "send_waiting_when_closed_or_reset": f.get("send_lost"),
+            "aclose_forcefully_with_receive_and_send_parked": f.get("forceful_close"),
+            "sixty_sends_with_timeouts_against_a_stalled_peer": f.get("send_timeouts"),
+            "close_with_unread_inbound_data[unread, bytes of 3000000 received, end]": f.get("close_unread_inbound"),
             "violations": len(d["violations"]),
             "wall_s": round(sum(s[2] for s in f.get("scenario_s", [])), 1),
         }
@@ -1739,6 +1811,12 @@ def check(tier: str) -> int:
         "unix_scripts_dropped_out_of_fuel_or_invalid": fuel_dropped,
         "monitor_hits": monitor_hits,
         "end_to_end": e2e_facts,
+        "known_finding_hits": known_hits,
+        "observations": {"/".join(d["config"]): d.get("facts", {}).get("observations") for d in e2e},
+        "observations_note": "behaviour outside the clause texts of C18, recorded only: uvloop reports a peer reset after partial "
+                             "data as EndOfStream when no receive() was waiting (libuv); UNIXSocketStream.send(b'') on a closed stream "
+                             "returns; UNIXSocketStream.receive(2**40) raises MemoryError; send_eof() on a closed stream raises "
+                             "OSError/RuntimeError or returns instead of raising ClosedResourceError",
         "samples": [{"model": "SockProto", "ops": readable(sruns[i].ops)[:25], "outs": sexp[i][:60]} for i in idx[:2]] +
                    [{"model": "UnixLoop", "case": ucs[i], "outs": uexp[i]} for i in uidx[:2]],
     })
@@ -1748,7 +1826,8 @@ def check(tier: str) -> int:
                  "unix:busy", "unix:cancelled", "unix:recv_eof", "unix:intruder:send", "unix:intruder:send_eof",
                  "unix:intruder:send_fds", "unix:intruder:receive", "unix:intruder:receive_fds",
                  "close:close_with_both_parked", "close:close_with_one_parked", "close:step_after_close",
-                 "sock:send_wait_ended_by_close", "sock:send_wait_ended_by_connection_lost", "sock:send_released_by_resume_writing"):
+                 "sock:send_wait_ended_by_close", "sock:send_wait_ended_by_connection_lost", "sock:send_released_by_resume_writing",
+                 "sock:close_cancelled", "sock:send_waits_before_write"):
         if not flags.get(need):
             rep.notes.append(f"generator self-check: predicate {need} never reached")
     return rep.finish()
